@@ -189,6 +189,7 @@ CompressInv ==
 \* constant sets for the .cfg files
 Shapes33 == UNION {[1 .. k -> 0 .. 3] : k \in 1 .. 3}      \* <= 3 sub-tables, 0..3 rows
 Shapes22 == UNION {[1 .. k -> 0 .. 2] : k \in 1 .. 2}
+Shapes21 == UNION {[1 .. k -> 0 .. 1] : k \in 1 .. 2}
 Shapes32 == UNION {[1 .. k -> 0 .. 2] : k \in 1 .. 3}
 One == {1}
 Two == {2}
